@@ -8,6 +8,17 @@ C12 driver.
          (one blank-separated field; `time`, `tid`, `order` are environment facts the harness
           observed and hands back so that the model is fed the same)
 
+  message: `<str>` (one `{}` argument) | `args:p1,…` (0–4 `{}` arguments) | `lit:a` (literal frame around one
+         argument) | `const:~` (literal only) | `chars:s` (one `write_str` per character) | `pad:a,b` (`{:>6}|{:<4}|`)
+         — the model is given the pieces the `Display` hands over.
+  The MDC order fed to the model is the order of the entries in the implementation's own line when that
+  line can be read and its keys are the thread's keys (so an implementation that iterated the map in any
+  other order agrees with the model); `order=` (what `log_mdc::iter` yielded) is used otherwise.
+
+Several threads, one encoder:
+  case : `multi`  main|succ|conc  entry|entry|…   entry = thread?;level;message;target;module_path?;file?;line?;mdc
+  obs  : `multi` then per entry `tid;time;order;kind;indep;payload`
+
 History cases (several encodes on ONE thread with ONE encoder):
   case : `seq`  thread-name?  step|step|…
          step = level;message;target;module_path?;file?;line?;mdc;writer;display
@@ -33,6 +44,57 @@ def decPair (s : String) : Option (List Char × List Char) :=
 /-- `HashMap::insert` semantics over the insertion sequence: one entry per key, last value wins -/
 def mdcMap (ins : List (List Char × List Char)) : List (List Char × List Char) :=
   ins.foldl (fun acc kv => if acc.any (·.1 == kv.1) then acc.map (fun e => if e.1 == kv.1 then kv else e) else acc ++ [kv]) []
+
+/-! ### message shapes -/
+
+def litHead : List Char := "request body: ".toList
+def litTail : List Char := " (end)".toList
+def constText : List Char := "static \"literal\" \\ message\n".toList
+
+def fill (w : Nat) (s : List Char) : List (List Char) := List.replicate (w - s.length) [' ']
+
+/-- shape tag and the `write_str` pieces of a message field -/
+def decMessage (s : String) : Option (String × List (List Char)) :=
+  match splitOnChar ':' s with
+  | [one] => (decStr one).map fun t => ("plain", [t])
+  | [tag, rest] =>
+    match mapM? decStr (decList ',' rest) with
+    | none => none
+    | some parts =>
+      match tag, parts with
+      | "args", ps => if ps.length ≤ 4 then some ("args", ps) else none
+      | "lit", [a] => some ("lit", [litHead, a, litTail])
+      | "const", [] => some ("const", [constText])
+      | "chars", [t] => some ("chars", t.map fun c => [c])
+      | "pad", [a, b] => some ("pad", fill 6 a ++ [a, ['|'], b] ++ fill 4 b ++ [['|']])
+      | _, _ => none
+  | _ => none
+
+def utf8Len (s : List Char) : Nat := (Log4rs.utf8 s).length
+
+def shapeTags (shape : String) (pieces : List (List Char)) : List String :=
+  let n := pieces.length
+  let rec longAfterShort : Bool → List (List Char) → Bool
+    | _, [] => false
+    | seen, p :: ps => (seen && utf8Len p ≥ 128) || longAfterShort (seen || (!p.isEmpty && utf8Len p < 128)) ps
+  [ if n = 0 then "pieces-0" else if n = 1 then "pieces-1" else if n = 2 then "pieces-2" else "pieces-many" ]
+  ++ (match shape with
+      | "lit" => ["literal-pieces"] | "const" => ["const-literal"] | "chars" => ["char-by-char"]
+      | "pad" => ["padded"] | "args" => ["several-arguments"] | _ => [])
+  ++ (if longAfterShort false pieces then ["long-piece-after-short"] else [])
+
+/-- the order of the MDC entries in the implementation's own line, when it can be read and its keys
+    are exactly the map's keys; the harness' `log_mdc::iter` order otherwise -/
+def lineOrder (map : List (List Char × List Char)) (harnessOrder : List (List Char))
+    (implLine : Option (List Char)) : List (List Char) :=
+  match implLine.bind readLineMembers with
+  | some ms =>
+    match ms.lookup kMdc with
+    | some (.map es) =>
+      let ks := es.map (·.1)
+      if ks.length = map.length && noDupKeys ks && ks.all (fun k => map.any (·.1 == k)) then ks else harnessOrder
+    | _ => harnessOrder
+  | none => harnessOrder
 
 def kvOf (obs : String) : List (String × String) :=
   (splitOnChar ' ' obs).filterMap fun f =>
@@ -72,11 +134,13 @@ def tagsOf (thread : Option (List Char)) (r : Record) (mdc : List (List Char × 
       (if mdc.isEmpty then "mdc-0" else if mdc.length = 1 then "mdc-1" else "mdc-many") ]
     ++ (if strs.any (fun p => p.2.isEmpty) then ["empty-string"] else [])
   let trivial := special.isEmpty && mdc.isEmpty
-  shape ++ special ++ where_ ++ (if trivial then ["trivial"] else [])
+  let long := dedup (strs.filterMap fun p => if p.2.length ≥ 200 then some ("long-" ++ p.1) else none)
+  shape ++ special ++ where_ ++ long ++ (if trivial then ["trivial"] else [])
 
 /-! ### histories -/
 
 structure StepCase where
+  shape : String
   record : Record
   ins : List (List Char × List Char)
   writerTag : String
@@ -97,11 +161,11 @@ def writerTagOk (w : String) : Bool :=
 def decStep (s : String) : Option StepCase :=
   match splitOnChar ';' s with
   | [lv, msg, target, mp, file, line, mdc, w, disp] =>
-    match (decNat lv).bind Level.ofNat?, decStr msg, decStr target, decOpt decStr mp, decOpt decStr file,
+    match (decNat lv).bind Level.ofNat?, decMessage msg, decStr target, decOpt decStr mp, decOpt decStr file,
           decOpt decNat line, mapM? decPairColon (decList ',' mdc), decOpt decNat disp with
-    | some level, some message, some target, some modulePath, some file, some line, some ins, some display =>
+    | some level, some (shape, pieces), some target, some modulePath, some file, some line, some ins, some display =>
       if writerTagOk w then
-        some { record := { level, message, modulePath, file, line, target }, ins, writerTag := w, display }
+        some { shape, record := { level, pieces, modulePath, file, line, target }, ins, writerTag := w, display }
       else none
     | _, _, _, _, _, _, _, _ => none
   | _ => none
@@ -113,20 +177,21 @@ structure StepObs where
   orderS : String
   order : List (List Char)
   kind : String
+  indep : String
   iso : String
   text : Option (List Char)
   bytes : Option (List Nat)
 
 def decStepObs (s : String) : Option StepObs :=
   match splitOnChar ';' s with
-  | [timeS, kS, orderS, kind, _indep, iso, payload] =>
+  | [timeS, kS, orderS, kind, indep, iso, payload] =>
     match decStr timeS, decOpt decNat kS, mapM? decStr (decList ',' orderS) with
     | some time, some k, some order =>
       match payload.toList with
       | 't' :: rest => (decStr (String.ofList rest)).map fun t =>
-          { timeS, time, k, orderS, order, kind, iso, text := some t, bytes := none }
+          { timeS, time, k, orderS, order, kind, indep, iso, text := some t, bytes := none }
       | 'b' :: rest => (decBytes (String.ofList rest)).map fun b =>
-          { timeS, time, k, orderS, order, kind, iso, text := none, bytes := some b }
+          { timeS, time, k, orderS, order, kind, indep, iso, text := none, bytes := some b }
       | _ => none
     | _, _, _ => none
   | _ => none
@@ -141,7 +206,8 @@ structure StepAnswer where
 def seqStep (thread : Option (List Char)) (tid : Nat) (idx : Nat) (c : StepCase) (o : StepObs) : StepAnswer :=
   let map := mdcMap c.ins
   let isPerm := o.order.length = map.length && noDupKeys o.order && o.order.all (fun k => map.any (·.1 == k))
-  let mdcEnv := o.order.filterMap fun k => (map.lookup k).map (k, ·)
+  let order := lineOrder map o.order (if o.kind = "ok" then o.text else none)
+  let mdcEnv := order.filterMap fun k => (map.lookup k).map (k, ·)
   let env : Env := { time := o.time, thread, threadId := tid, mdc := mdcEnv }
   let writer : WriterBehaviour := match o.k with | some k => .failAfter k | none => .acceptAll
   let step : Step := { env, record := c.record, writer, displayFails := c.display }
@@ -172,6 +238,8 @@ def seqStep (thread : Option (List Char)) (tid : Nat) (idx : Nat) (c : StepCase)
             if o.iso = "diff" then
               some (pre ++ "the line differs from what a fresh thread and encoder emit for the same record",
                     "C12/state-leaks-between-records")
+            else if o.indep ≠ "ok" then
+              some (pre ++ "serde_json::Value reads the line differently: " ++ o.indep, "C12/independent-parser-disagrees")
             else none
     else
       let got : List Nat := match o.bytes, o.text with
@@ -198,6 +266,7 @@ def seqStep (thread : Option (List Char)) (tid : Nat) (idx : Nat) (c : StepCase)
     ++ (if c.record.target.length ≥ 64 then ["long-target"] else [])
     ++ (if c.record.message.any needsEscape then ["escapes-in-message"] else [])
     ++ (if map.isEmpty then [] else ["mdc-nonempty"])
+    ++ shapeTags c.shape c.record.pieces
   { model, okStep, fail, tags }
 
 def adjacent : List α → List (α × α)
@@ -246,34 +315,124 @@ def handleSeq (threadS stepsS : String) (obs : List String) : Answer :=
     | [] => badCase "observation"
   | _, _ => badCase "fields"
 
+/-! ### several threads, one encoder -/
+
+structure EntryCase where
+  thread : Option (List Char)
+  step : StepCase
+
+def decEntry (s : String) : Option EntryCase :=
+  match splitOnChar ';' s with
+  | [t, lv, msg, target, mp, file, line, mdc] =>
+    match decOpt decStr t, decStep (";".intercalate [lv, msg, target, mp, file, line, mdc, "ok", "-"]) with
+    | some thread, some step => some { thread, step }
+    | _, _ => none
+  | _ => none
+
+structure EntryObs where
+  tid : Nat
+  obs : StepObs
+
+def decEntryObs (s : String) : Option EntryObs :=
+  match splitOnChar ';' s with
+  | [tidS, timeS, orderS, kind, indep, payload] =>
+    match decNat tidS, decStepObs (";".intercalate [timeS, "-", orderS, kind, indep, "same", payload]) with
+    | some tid, some obs => some { tid, obs }
+    | _, _ => none
+  | _ => none
+
+def multiEntry (idx : Nat) (c : EntryCase) (eo : EntryObs) : StepAnswer :=
+  let o := eo.obs
+  let map := mdcMap c.step.ins
+  let isPerm := o.order.length = map.length && noDupKeys o.order && o.order.all (fun k => map.any (·.1 == k))
+  let order := lineOrder map o.order (if o.kind = "ok" then o.text else none)
+  let mdcEnv := order.filterMap fun k => (map.lookup k).map (k, ·)
+  let env : Env := { time := o.time, thread := c.thread, threadId := eo.tid, mdc := mdcEnv }
+  let model := toString eo.tid ++ ";" ++ o.timeS ++ ";" ++ (if isPerm then o.orderS else "NOT-A-PERMUTATION")
+    ++ ";ok;ok;t" ++ encStr (jsonLine env c.step.record)
+  let pre := "entry" ++ toString idx ++ " "
+  let fail : Option (String × String) :=
+    if !isPerm then some (pre ++ "mdc keys iterated are not the keys inserted", "C12/mdc-keys")
+    else match o.text with
+      | none => some (pre ++ "no complete UTF-8 line came out (" ++ o.kind ++ ")", "C12/no-line")
+      | some t =>
+        if o.kind ≠ "ok" then some (pre ++ "encode did not return Ok", "C12/no-line")
+        else match specLine env c.step.record t with
+          | .fail clause => some (pre ++ clause, "C12/" ++ clause)
+          | .ok =>
+            if o.indep ≠ "ok" then
+              some (pre ++ "serde_json::Value reads the line differently: " ++ o.indep, "C12/independent-parser-disagrees")
+            else none
+  { model, okStep := true, fail, tags := shapeTags c.step.shape c.step.record.pieces }
+
+def handleMulti (mode entriesS : String) (obs : List String) : Answer :=
+  match mapM? decEntry (splitOnChar '|' entriesS) with
+  | some entries =>
+    if !(mode = "main" || mode = "succ" || mode = "conc") then badCase "mode" else
+    let obsFields := (splitOnChar ' ' (" ".intercalate obs)).filter (· ≠ "")
+    match obsFields with
+    | "multi" :: rest =>
+      match mapM? decEntryObs rest with
+      | some eobs =>
+        if eobs.length ≠ entries.length then badCase "entry count"
+        else
+          let answers := (zip3 (List.range entries.length) entries eobs).map fun (i, c, o) => multiEntry i c o
+          let model := " ".intercalate ("multi" :: answers.map (·.model))
+          let spec := match (answers.filterMap (·.fail)).head? with
+            | some (msg, sig) => "FAIL:" ++ msg ++ ";sig=" ++ sig
+            | none => "ok"
+          let tids := eobs.map (·.tid)
+          let names := entries.map (·.thread)
+          let reused := (adjacent (tids.zip names)).any fun p => p.1.1 == p.2.1 && p.1.2 != p.2.2
+          let shape :=
+            ["multi", "multi-" ++ mode, "threads-" ++ (if entries.length ≥ 4 then "4+" else toString entries.length)]
+            ++ (if mode = "succ" && reused then ["thread-id-reused-under-another-name"] else [])
+            ++ (if mode = "succ" && !reused then ["thread-id-not-reused"] else [])
+            ++ (if mode = "conc" && noDupKeys (tids.map fun t => (toString t).toList) then ["live-thread-ids-distinct"] else [])
+            ++ (if names.any (·.isNone) then ["thread-null"] else [])
+            ++ (if (adjacent (entries.map (·.step.ins))).any (fun p => p.1 != p.2) then ["mdc-differs-between-threads"] else [])
+          { model, spec, tags := dedup (shape ++ answers.flatMap (·.tags)) }
+      | none => badCase "observation"
+    | head :: _ =>
+      { model := "multi", spec := "FAIL:nothing observed (" ++ head.take 40 ++ ");sig=C12/no-line", tags := ["multi"] }
+    | [] => badCase "observation"
+  | none => badCase "fields"
+
 def handle : Handler := fun cas obs =>
   match cas with
   | ["seq", threadS, stepsS] => handleSeq threadS stepsS obs
+  | ["multi", mode, entriesS] => handleMulti mode entriesS obs
   | [lv, msg, target, mp, file, line, thread, mdc] =>
-    match (decNat lv).bind Level.ofNat?, decStr msg, decStr target, decOpt decStr mp, decOpt decStr file,
+    match (decNat lv).bind Level.ofNat?, decMessage msg, decStr target, decOpt decStr mp, decOpt decStr file,
           decOpt decNat line, decOpt decStr thread, mapM? decPair (decList ',' mdc) with
-    | some level, some message, some target, some modulePath, some file, some line, some thread, some ins =>
-      let r : Record := { level, message, modulePath, file, line, target }
+    | some level, some (shape, pieces), some target, some modulePath, some file, some line, some thread, some ins =>
+      let r : Record := { level, pieces, modulePath, file, line, target }
       let map := mdcMap ins
-      let tags := tagsOf thread r map
+      let tags := tagsOf thread r map ++ shapeTags shape pieces
       let obsStr := " ".intercalate obs
       let kv := kvOf obsStr
       match kv.lookup "time", (kv.lookup "tid").bind decNat, kv.lookup "order", kv.lookup "line" with
       | some timeS, some tid, some orderS, some lineS =>
         match decStr timeS, mapM? decStr (decList ',' orderS), decStr lineS with
-        | some time, some order, some implLine =>
-          -- the observed iteration order must be a permutation of the map's keys
-          let isPerm := order.length = map.length && noDupKeys order && order.all (fun k => map.any (·.1 == k))
+        | some time, some harnessOrder, some implLine =>
+          -- what `log_mdc::iter` yielded must be a permutation of the map's keys
+          let isPerm := harnessOrder.length = map.length && noDupKeys harnessOrder
+            && harnessOrder.all (fun k => map.any (·.1 == k))
+          let order := lineOrder map harnessOrder (some implLine)
           let mdcEnv := order.filterMap fun k => (map.lookup k).map (k, ·)
           let env : Env := { time, thread, threadId := tid, mdc := mdcEnv }
           let model := "time=" ++ timeS ++ " tid=" ++ toString tid ++ " order="
             ++ (if isPerm then orderS else "NOT-A-PERMUTATION-OF-THE-MDC-KEYS") ++ " indep=ok line="
             ++ encStr (jsonLine env r)
+          let indep := (kv.lookup "indep").getD "missing"
           let spec :=
             if !isPerm then "FAIL:mdc keys iterated are not the keys inserted;sig=C12/mdc-keys"
             else match specLine env r implLine with
-              | .ok => "ok"
               | .fail clause => "FAIL:" ++ clause ++ ";sig=C12/" ++ clause
+              | .ok =>
+                if indep ≠ "ok" then
+                  "FAIL:serde_json::Value reads the line differently: " ++ indep ++ ";sig=C12/independent-parser-disagrees"
+                else "ok"
           { model, spec, tags }
         | _, _, _ => badCase "observation"
       | _, _, _, _ =>
